@@ -2,6 +2,7 @@
 from __future__ import annotations
 
 import ast
+import re
 
 from ..core import AnalysisError, Project, dotted, is_const, kwarg, norm, param_names, walk_no_nested
 from ..util import canon, returns_of
@@ -68,6 +69,23 @@ def r1(ctx):
               ctx.construct(h, text="spec structure"),
               "ModelSpec.differentiate must reset `structure` (it lists the original formula's terms and columns): a materialised spec's derivative otherwise "
               "fails (KeyError) or replays the original columns when materialised")
+    # the derivative is a formula object with `_ordering=NONE`; on its way through a model spec it passes Formula.from_spec, which
+    # must hand an existing formula object back as it is (re-wrapping it would re-sort the derivative's terms by degree)
+    fs = P.method("formulaic.formula._FormulaMeta", "from_spec")
+    try:
+        fo = sym.outcomes(fs.node)
+    except sym.Unmodelled as e:
+        raise AnalysisError(f"C20.R1: Formula.from_spec cannot be summarised: {e}")
+    from ..util import strip_casts
+    sp = param_names(fs.node)[1]
+    FORM = re.compile(r"^isinstance\(%s, \(?(Formula|SimpleFormula|StructuredFormula)(, (Formula|SimpleFormula|StructuredFormula))*\)?\)$" % re.escape(sp))
+    built = [o for o in fo if any(pol and FORM.match(norm(c)) for c, pol in o.conds)]
+    ctx.floor("C20.R1", len(built), 1, "paths of Formula.from_spec for an existing formula object")
+    bad = [o for o in built if not (o.kind == "return" and o.value is not None and norm(strip_casts(o.value)) == sp and not o.effects)]
+    ctx.check(not bad, "C20.R1", "Formula.from_spec hands an existing formula object back unchanged (the derivative keeps its term order)", fs.where,
+              ctx.construct(fs, text="from_spec passthrough"),
+              f"an already-built formula must be returned as it is; found {[repr(o)[:140] for o in bad[:2]]}: re-wrapping applies the default degree ordering to a "
+              f"derivative that was built with ordering NONE")
 
 
 def r2(ctx):
